@@ -78,7 +78,7 @@ def main():
             if same_sum and c['c']:
                 eqsum += 1
             key = f'Y={c["y"]} X={c["x"]} c={c["c"]}'
-            if abs(s - e) > MC.tol(e, hy):
+            if not (abs(s - e) <= MC.tol(e, hy)):
                 kind = 'shortcut-equal-sum' if (same_sum and c['c']) else 'spec'
                 V.violation(f'{kind}:{key}', f'score {s!r} != specified {e!r} (identical={ident}, equal code sums={same_sum})', c)
             # relabelled variants: all "interesting" cases, a seeded 6% of the rest
@@ -102,9 +102,9 @@ def main():
             e2 = O.value(O.spec_score(fy, gx, c['c']), n)
             hy = O.entropy(fy)
             key = f'Y={c["y"]} X={c["x"]} c={c["c"]} relabel={name}/{side}'
-            if abs(s2 - e2) > MC.tol(e2, hy):
+            if not (abs(s2 - e2) <= MC.tol(e2, hy)):
                 V.violation(f'relabel-spec:{key}', f'relabelled pair Y={fy} X={gx}: score {s2!r} != specified {e2!r}', {'case': c, 'fy': fy, 'gx': gx})
-            elif ((fy == gx) == (c['y'] == c['x'])) and abs(s2 - s) > MC.tol(s, hy):
+            elif ((fy == gx) == (c['y'] == c['x'])) and not (abs(s2 - s) <= MC.tol(s, hy)):
                 V.violation(f'relabel-invariance:{key}', f'score changed from {s!r} to {s2!r} under injective relabelling', {'case': c, 'fy': fy, 'gx': gx})
         V.count(evaluations=len(cases) + len(relreq), nontrivial=nontriv, traces=len(cases) + len(relreq) - len(crashes) - len(crashes2))
         V.notes[f'{label}_equal_sum_nonidentical_corrected_cases'] = eqsum
@@ -137,7 +137,7 @@ def main():
         if s is None:
             continue
         e = O.value(O.spec_score(rq[0], rq[1], cflag), n)
-        if abs(s - e) > MC.tol(e, O.entropy(y)):
+        if not (abs(s - e) <= MC.tol(e, O.entropy(y))):
             V.violation(f'large:{nm}:n={n}:c={cflag}:{var}', f'score {s!r} != specified {e!r}', {'family': nm, 'n': n, 'seed': seed, 'variant': var})
     V.count(evaluations=len(req), nontrivial=len(req) * 2 // 3, traces=len(req))
     V.coverage['exhaustive'] = True
